@@ -13,18 +13,23 @@ EXPLANATION = (
     "Static rules over the path lexer and the Path builder callbacks (no execution). R09.1 operand discipline: in every "
     "command branch each value produced by a Maybe-returning reader and handed to a builder is NonNull at the call - by an "
     "explicit raise-if-None test, by the `_more()` fact (a pending number token makes the next number/coord read succeed; "
-    "established from the reader bodies), or by monotone failure (a later checked read implies the earlier reads "
-    "succeeded when the later token language is prefix-included in the earlier one; decided on the regexes as automata). "
-    "A close-or-raise fallback does not cover earlier reads. R09.2: every explicit raise on the parsing path is ValueError. "
-    "R09.3: in builder callbacks the Maybe-valued current_point/z_point/smooth_point is neither dereferenced nor passed to a "
-    "callee parameter that requires NonNull (computed callee summaries, per call-site arity) without a dominating None test "
-    "that raises ValueError. R09.4 progress: every tokenizer alternative has minimum width >= 1 and every reader loop "
-    "iteration advances past a match, returns or leaves the loop; every `while more` loop reads first. R09.5: each "
-    "coordinate slot the lexer may fill with an inline close is tested against 'z'/'Z' in the builder; builder strides match "
-    "the number of operands passed. R09.6: converters applied to token text accept the token language (float of FLOAT, "
-    "int of FLAG). R09.7: a 'z' operand is resolved to the subpath start through an accessor that yields a point or raises "
-    "ValueError. Not decided: wall-clock promptness (z_point scans backwards: quadratic on M(l z)*n), and totality of "
-    "every later operation on a partially built path."
+    "established from the reader bodies), or by monotone failure (a later checked read implies the earlier reads succeeded "
+    "when the later token language is prefix-included in the earlier one; decided on the regexes as automata). A close-or-"
+    "raise fallback does not cover earlier reads. R09.2: every explicit raise on the parsing path is ValueError. R09.3: in "
+    "builder callbacks the Maybe-valued current_point/z_point/smooth_point is neither dereferenced nor passed to a callee "
+    "parameter that requires NonNull (computed callee summaries, per call-site arity) without a dominating None test that "
+    "raises ValueError; each builder is also followed path by path with no current point, in absolute and in relative mode "
+    "(a guard in the wrong branch does not count), and the control point of the stored previous curve is Maybe too: "
+    "reflecting it needs a None test on the receiver and on the current point. R09.4 progress: every tokenizer alternative "
+    "has minimum width >= 1 and every reader loop iteration advances past a match, returns or leaves the loop; every `while"
+    " more` loop reads first. R09.5: each coordinate slot the lexer may fill with an inline close is tested against 'z'/'Z'"
+    " in the builder; builder strides match the number of operands passed. R09.6: converters applied to token text accept "
+    "the token language (float of FLOAT, int of FLAG). R09.7: a 'z' operand is resolved to the subpath start through an "
+    "accessor that yields a point or raises ValueError. R09.8 retained segments: followed with no current point, a builder "
+    "that does not raise appends its segment with start None; this is reported when the segment kind's bbox (or a helper it"
+    " calls on self) reads self.start as a point, loops over all its points without skipping None, or (Close before any "
+    "Move: every point missing) takes min() of a list emptied by the None filter. Not decided: wall-clock promptness "
+    "(z_point scans backwards: quadratic on M(l z)*n), and totality of every later operation on a partially built path."
 )
 TECHNIQUE = (
     "static analysis (no execution): nullness of lexer operands at builder calls (value tracking + token-language implications decided on regex automata); tokenizer loop summaries per token alternative (progress); ValueError-only raise lint; callee nullness summaries"
@@ -34,7 +39,7 @@ ASSUMPTIONS = [
     "Monotone-failure reasoning relies on leftmost matching at one position of num_re/flag_re as spelled in the module; the "
     "needed inclusion (a flag match implies a number match) is re-proved from the patterns on every run.",
 ]
-FLOORS = {"R09.1": 30, "R09.2": 10, "R09.3": 10, "R09.4": 10, "R09.5": 8, "R09.7": 8}
+FLOORS = {"R09.1": 30, "R09.2": 10, "R09.3": 10, "R09.4": 10, "R09.5": 8, "R09.7": 8, "R09.8": 5}
 
 BUILDERS = ["move", "line", "vertical", "horizontal", "smooth_quad", "quad", "smooth_cubic", "cubic", "arc", "closed"]
 
@@ -45,6 +50,7 @@ def run(ctx):
     ctx.rule("R09.3", "current-point nullness in builder callbacks")
     ctx.rule("R09.4", "token progress")
     ctx.rule("R09.5", "inline-close acceptance and operand strides")
+    ctx.rule("R09.8", "a segment kind whose measuring methods need its start is never stored with a missing start")
     ctx.rule("R09.6", "converter grammar vs token language")
     ctx.rule("R09.7", "inline-close resolution yields a point or ValueError")
     fn, cmd_var, branches, dup, end_returns = PL.lexer_branches(ctx, "R09.1")
@@ -52,6 +58,8 @@ def run(ctx):
     operands(ctx, branches)
     raises(ctx)
     current_point(ctx)
+    no_current_point(ctx)
+    start_required(ctx)
     progress(ctx, fn)
     inline_close(ctx, branches)
     close_resolution(ctx)
@@ -280,9 +288,29 @@ def current_point(ctx):
                             continue
                         head = cn.split(".")[0]
                         if head not in m.classes:
-                            # method of another object (last_segment.control.reflected_across(start_pos)): reached only when a
-                            # stored segment exists; stored segments have non-None ends by R09.1/R09.7, so this is not decided here
-                            ctx.note("R09.3 not decided for %s in Path.%s (method of a stored object)" % (cn, bname))
+                            # method of a stored object (last_segment.control.reflected_across(start_pos)).  The control of a
+                            # stored curve is itself Maybe: a smooth command with no current point stores control = None
+                            # ("T1 2 3 4": the second T then reflects None).  Both the receiver and the Maybe argument need a
+                            # None test that dominates the call.
+                            from ..flow import dominated
+
+                            recv = node.func.value if isinstance(node.func, ast.Attribute) else None
+                            rsrc = ast.unparse(recv) if recv is not None else "?"
+
+                            def not_none(expr_src):
+                                def atom_test(test, positive):
+                                    if isinstance(test, ast.Compare) and len(test.ops) == 1 and isinstance(test.comparators[0], ast.Constant) and test.comparators[0].value is None \
+                                            and ast.unparse(test.left) == expr_src and isinstance(test.ops[0], (ast.Is, ast.IsNot)):
+                                        return isinstance(test.ops[0], ast.IsNot) == positive
+                                    return False
+                                return atom_test
+
+                            ok_r = recv is not None and dominated(node, fn, not_none(rsrc))
+                            ok_a = a.id in guarded or dominated(node, fn, not_none(a.id))
+                            n += 1
+                            ctx.ob("R09.3", "Path.%s[%s(%s)]" % (bname, cn, a.id), ok_r and ok_a,
+                                   "receiver %s %s; argument %s %s" % (rsrc, "tested" if ok_r else "not tested against None", a.id, "tested" if ok_a else "not tested against None"), node.lineno,
+                                   "a stored curve's control point and the current point can both be None (smooth command at the start of the data): AttributeError/TypeError instead of ValueError")
                             continue
                         n += 1
                         if a.id in guarded:
@@ -294,6 +322,131 @@ def current_point(ctx):
                             raise AnalysisError("R09.3", str(e))
                         ctx.ob("R09.3", "Path.%s[%s->%s#%d]" % (bname, a.id, cn, i), not r, why or "callee tolerates None", node.lineno,
                                "possibly missing current point handed to a parameter that requires a point: TypeError/AttributeError instead of ValueError")
+
+
+def no_current_point(ctx):
+    """The same question path by path: with no current point, in absolute and in relative mode, a builder either raises
+    ValueError before it uses the current point as a point, or never uses it."""
+    for bname in BUILDERS:
+        fn = ctx.fn("Path.%s" % bname, "R09.3")
+        if fn.args.vararg is None:
+            continue  # closed(): no operands
+        for rel in (False, True):
+            cons = "Path.%s[no current point, relative=%s]" % (bname, rel)
+            try:
+                sm = BLD.summarise(ctx, "R09.3", bname, BLD.Scenario(rel=rel, nocur=True))
+            except AnalysisError as e:
+                raise AnalysisError("R09.3", "%s: %s" % (cons, e))
+            exc = None
+            if sm.exit == "raise":
+                e = sm.exit_node.func if isinstance(sm.exit_node, ast.Call) else sm.exit_node
+                exc = e.id if isinstance(e, ast.Name) else "?"
+            ok = not sm.cur_deref and (sm.exit != "raise" or exc == "ValueError")
+            detail = "; ".join("line %d: %s" % d for d in sm.cur_deref[:3]) or ("raises %s" % exc if exc else "current point not used as a point")
+            ctx.ob("R09.3", cons, ok, detail, sm.cur_deref[0][0] if sm.cur_deref else fn.lineno,
+                   "the missing current point is used as a point on this path before (or without) the ValueError guard: AttributeError/TypeError instead of ValueError", sample=False)
+
+
+# --------------------------------------------------------------------------- R09.8
+def start_required(ctx):
+    """'Every retained segment has real numeric coordinates, so that serialising, transforming, measuring and bounding the result
+    can never fail afterwards.'  A builder reached with no current point stores the segment with start None.  Whether that is
+    harmless depends on the segment kind: Line and Move measure through the None-skipping PathSegment methods, the curve kinds
+    read self.start.x in bbox/length/point.  Decided per (builder, kind): the kind's bbox dereferences self.start (or takes
+    min() of a point list that is empty when every point is missing) and the builder, followed with no current point, appends
+    that kind with the current point as its start."""
+    from ..flow import dominated
+
+    m = ctx.m
+
+    def start_is_none_test(test, positive):
+        if isinstance(test, ast.Compare) and len(test.ops) == 1 and attr_chain(test.left) == ["self", "start"] and isinstance(test.comparators[0], ast.Constant) \
+                and test.comparators[0].value is None and isinstance(test.ops[0], (ast.Is, ast.IsNot)):
+            return isinstance(test.ops[0], ast.IsNot) == positive
+        return False
+
+    def uses_in(c, f, all_missing):
+        """an unguarded use of the start point as a point in f (a method of class c), or None"""
+        for n in ast.walk(f):
+            if isinstance(n, (ast.Attribute, ast.Subscript)) and attr_chain(n.value) == ["self", "start"] and not dominated(n, f, start_is_none_test):
+                return ("%s.%s" % (c, f.name), n.lineno, ast.unparse(n))
+            # every point of the segment, start included, dereferenced in a loop over the segment itself
+            if isinstance(n, (ast.ListComp, ast.GeneratorExp)) and len(n.generators) == 1 and isinstance(n.generators[0].iter, ast.Name) and n.generators[0].iter.id == "self" \
+                    and not n.generators[0].ifs and isinstance(n.generators[0].target, ast.Name):
+                v = n.generators[0].target.id
+                if any(isinstance(x, (ast.Attribute, ast.Subscript)) and isinstance(x.value, ast.Name) and x.value.id == v for x in ast.walk(n.elt)):
+                    return ("%s.%s" % (c, f.name), n.lineno, ast.unparse(n)[:60])
+        if all_missing:
+            # min()/max() over a list that drops missing points: empty when every point is missing
+            for n in ast.walk(f):
+                if isinstance(n, ast.Call) and call_name(n) in ("min", "max") and len(n.args) == 1 and isinstance(n.args[0], ast.Name):
+                    for st in stmts_in(f.body):
+                        if isinstance(st, ast.Assign) and isinstance(st.targets[0], ast.Name) and st.targets[0].id == n.args[0].id and isinstance(st.value, ast.ListComp) \
+                                and any(g.ifs for g in st.value.generators):
+                            return ("%s.%s" % (c, f.name), n.lineno, "%s of a list that is empty when every point is None" % ast.unparse(n))
+        return None
+
+    def needs_start(kind, all_missing=False):
+        """-> (method, line, text) of an unguarded use of self.start as a point in the kind's bbox (or a helper it calls on self)"""
+        for c in m.mro(kind):
+            ci = m.classes.get(c)
+            f = ci.methods.get("bbox") if ci else None
+            if f is None:
+                continue
+            r = uses_in(c, f, all_missing)
+            if r:
+                return r
+            for call in ast.walk(f):
+                if isinstance(call, ast.Call):
+                    ch = attr_chain(call.func)
+                    if ch and len(ch) == 2 and ch[0] == "self":
+                        for c2 in m.mro(kind):
+                            h = m.classes[c2].methods.get(ch[1]) if c2 in m.classes else None
+                            if h is not None:
+                                r = uses_in(c2, h, all_missing)
+                                if r:
+                                    return r
+                                break
+            return None
+        return None
+
+    n = 0
+    for bname in BUILDERS:
+        fn = ctx.fn("Path.%s" % bname, "R09.8")
+        if fn.args.vararg is None:
+            scen = [BLD.Scenario(nocur=True)]
+            try:
+                # closed(): no operands; read the appended kind directly
+                segs = []
+                for c in ast.walk(fn):
+                    if isinstance(c, ast.Call) and call_name(c) in BLD.SEG_KINDS:
+                        segs.append((call_name(c), c))
+                for kind, c in segs:
+                    starts_cur = bool(c.args) and (attr_chain(c.args[0]) == ["self", "current_point"] or (isinstance(c.args[0], ast.Name) and any(
+                        isinstance(st, ast.Assign) and isinstance(st.targets[0], ast.Name) and st.targets[0].id == c.args[0].id and attr_chain(st.value) == ["self", "current_point"] for st in stmts_in(fn.body))))
+                    guarded = any(isinstance(st, ast.If) and PL.none_test(st.test) is not None and st.body and isinstance(st.body[0], ast.Raise) for st in fn.body)
+                    need = needs_start(kind, all_missing=True)  # Close(current point, z point): both missing before any Move
+                    n += 1
+                    ctx.ob("R09.8", "Path.%s[%s start]" % (bname, kind), not (starts_cur and need and not guarded), "%s at line %d: %s" % need if need else "", c.lineno,
+                           "stored with the (missing) current point as its start; bounding the parsed path then fails")
+            except AnalysisError:
+                raise
+            continue
+        kinds = {}
+        for rel in (False, True):
+            sm = BLD.summarise(ctx, "R09.8", bname, BLD.Scenario(rel=rel, nocur=True))
+            if sm.exit == "raise":
+                continue
+            for sg in sm.segs:
+                if sg.args and sg.args[0] == ("cur",):
+                    kinds.setdefault(sg.kind, sg.node.lineno)
+        for kind, line in sorted(kinds.items()):
+            need = needs_start(kind)
+            n += 1
+            ctx.ob("R09.8", "Path.%s[%s start]" % (bname, kind), need is None, "%s at line %d: %s" % need if need else "measured through None-skipping methods", line,
+                   "with no current point (a curve command at the very start of the data) the segment is stored with start None; bounding or measuring the parsed path "
+                   "then raises TypeError/AttributeError although parsing succeeded")
+    ctx.need(n >= 5, "R09.8", "builder/segment-kind pairs reached with no current point: %d" % n)
 
 
 # --------------------------------------------------------------------------- R09.4
